@@ -476,6 +476,67 @@ func phiLeaves(v ssa.Value) []ssa.Value {
 	return out
 }
 
+// foldKey describes a lookup key as a function of one source value: key = φ('T', up) with
+// up = ToUpper(source), guarded by up == 'U'. The normalisation may live in a helper of the
+// module with one parameter (key = helper(source)): the helper's returned value is described
+// the same way and its parameter replaced by the argument.
+func foldKey(fn *ssa.Function, key ssa.Value, depth int) (src ssa.Value, isUpper, hasT, guard, shapeOK bool) {
+	leaves := phiLeaves(key)
+	if len(leaves) == 1 && depth < 3 {
+		if call, ok := stripConv(leaves[0]).(*ssa.Call); ok {
+			if g := call.Common().StaticCallee(); g != nil && len(g.Blocks) > 0 && len(g.Params) == 1 && len(call.Common().Args) == 1 && g != fn {
+				var rets []*ssa.Return
+				allInstrs(g, func(in ssa.Instruction) {
+					if r, ok := in.(*ssa.Return); ok {
+						rets = append(rets, r)
+					}
+				})
+				if len(rets) == 1 && len(rets[0].Results) == 1 {
+					s, u, t, gd, ok := foldKey(g, rets[0].Results[0], depth+1)
+					if ok && s == ssa.Value(g.Params[0]) {
+						arg := stripConv(call.Common().Args[0])
+						return arg, u, t, gd, true
+					}
+					return nil, false, false, false, false
+				}
+			}
+		}
+	}
+	var up ssa.Value
+	other := false
+	for _, lf := range leaves {
+		if k, ok := constInt(lf); ok {
+			if k == 'T' {
+				hasT = true
+			} else {
+				other = true
+			}
+			continue
+		}
+		if up != nil && up != lf {
+			other = true
+		}
+		up = lf
+	}
+	if up == nil || other {
+		return nil, false, false, false, false
+	}
+	// up = convert(call unicode.ToUpper(convert(source)))
+	if call, ok := stripConv(up).(*ssa.Call); ok && isPkgFunc(call.Common(), "unicode", "ToUpper") {
+		isUpper = true
+		src = stripConv(call.Call.Args[0])
+	}
+	// guard: some If on (up == 'U') exists
+	for _, a := range eqArms(fn) {
+		if a.X == up {
+			if k, ok := constant.Int64Val(constant.ToInt(a.Const)); ok && k == 'U' {
+				guard = true
+			}
+		}
+	}
+	return src, isUpper, hasT, guard, true
+}
+
 func (c *Ctx) checkCodonFolding() {
 	L := c.L
 	L.Rule("codon-fold", "in GenAllPossibleCodons each of the three IupacCode lookups is keyed by unicode.ToUpper of a distinct parameter with 'U' rewritten to 'T' (the key is φ('T', up) guarded by up == 'U')")
@@ -501,46 +562,12 @@ func (c *Ctx) checkCodonFolding() {
 	usedParam := map[*ssa.Parameter]bool{}
 	for i, lk := range lookups {
 		name := fmt.Sprintf("lookup %d", i+1)
-		leaves := phiLeaves(lk.Index)
-		var up ssa.Value
-		hasT := false
-		other := false
-		for _, lf := range leaves {
-			if k, ok := constInt(lf); ok {
-				if k == 'T' {
-					hasT = true
-				} else {
-					other = true
-				}
-				continue
-			}
-			if up != nil && up != lf {
-				other = true
-			}
-			up = lf
-		}
-		if up == nil || other {
+		src, isUpper, hasT, guard, shapeOK := foldKey(fn, lk.Index, 0)
+		if !shapeOK {
 			L.Bad("codon-fold", r.label, name, c.P.Pos(lk.Pos()), "lookup key is not φ('T', upper-cased parameter)")
 			continue
 		}
-		// up = convert(call unicode.ToUpper(convert(param)))
-		var param *ssa.Parameter
-		isUpper := false
-		if call, ok := stripConv(up).(*ssa.Call); ok && isPkgFunc(call.Common(), "unicode", "ToUpper") {
-			isUpper = true
-			if p, ok := stripConv(call.Call.Args[0]).(*ssa.Parameter); ok {
-				param = p
-			}
-		}
-		// guard: some If on (up == 'U') exists
-		guard := false
-		for _, a := range eqArms(fn) {
-			if a.X == up {
-				if k, ok := constant.Int64Val(constant.ToInt(a.Const)); ok && k == 'U' {
-					guard = true
-				}
-			}
-		}
+		param, _ := src.(*ssa.Parameter)
 		switch {
 		case !isUpper || param == nil:
 			L.Bad("codon-fold", r.label, name, c.P.Pos(lk.Pos()), "lookup key is not derived from unicode.ToUpper(parameter): lower-case nucleotides would translate to X")
